@@ -75,7 +75,10 @@ def violation_keys(case, res, bad):
     stage and the class of its message."""
     if res["accept"]:
         return ["accepts-invalid:%s" % t for t in sorted(bad["tokens"])] or ["accepts-invalid:?"]
-    return ["rejects-valid:%s:%s:%s" % (res["stage"], norm_msg(res["msg"]), case["kind"])]
+    # features of the valid document that name a known cause (GQLDiag!LocationDefaultFeatures), else the mutation kind
+    toks = sorted(bad.get("tokens") or [])
+    feat = "location-default@field" if "location-default@field" in toks else ("+".join(toks) or case["kind"])
+    return ["rejects-valid:%s:%s:%s" % (res["stage"], norm_msg(res["msg"]), feat)]
 
 
 def run_trace(ctx, idx, rows):
